@@ -19,7 +19,8 @@ E = '\x1b'
 OPENERS = ('commit ', 'diff ', '--- ', '+++ ', '@@', 'Submodule ', 'Binary files ', 'Only in ', 'old mode ', 'new mode ', '{',
            'rename from ', 'rename to ', 'copy from ', 'copy to ', 'deleted file mode ', 'new file mode ', '<<<<<<< ',
            '=======', '>>>>>>> ', '||||||| ', '\\ ')
-BLAMEISH = re.compile(r'^\^?[0-9a-f]{4,40} ')
+# the shape of a `git blame` line as documented: hash [file] (author date time zone line) code
+BLAMEISH = re.compile(r'^\^?[0-9a-f]{4,40} (?:[^(]+ )?\(.*\d{4}-\d\d-\d\d \d\d:\d\d:\d\d [-+]\d{4} +\d+\)')
 
 
 DIFF_STAT = re.compile(r' ([^| ][^|]+[^| ]) +(\| +[0-9]+ .+)')
@@ -53,7 +54,9 @@ PROSE = ['The quick brown fox', 'warning: unused variable `x`', '  --> src/main.
          '1 file changed, 2 insertions(+)', ' src/a.rs | 2 +-', 'index 123..456', 'similarity index 90%', 'x' * 30,
          'tab\tseparated\tvalues', '   leading and trailing   ', '日本語のテキスト', 'emoji 😀 text', 'naïve café', '|/ graph', '* | 1234567 msg',
          '- dash start', '+ plus start', '-not a diff', '+not a diff', ' space start', '#!/bin/sh', '--', '++', '---', '+++', '@ at',
-         '=====', '<<<<<<<', '>>>>>>>', 'commitment', 'different', 'Binaryfiles', '}{']
+         '=====', '<<<<<<<', '>>>>>>>', 'commitment', 'different', 'Binaryfiles', '}{',
+         '1234567 fix the thing', 'abcdef0 (HEAD -> main, origin/main) Merge branch', 'deadbeef HEAD@{0}: commit: message', 'cafe babe and other hex words',
+         '^1234567 (looks like a boundary commit but is prose)', 'fa11 (Ann 2020 1) not a blame line']
 
 
 def text_line(rng):
@@ -240,7 +243,7 @@ def run_item(item):
         m = DIFF_STAT.search(term.strip_escapes(b.decode('utf-8', 'replace'))) if git_prefix else None
         if m and not (pos < len(out_lines) and matches(out_lines[pos], expected_bytes(b, cl, mll), b, cl, mll)):
             # a diff-stat line: its path is rewritten relative to the subdirectory (documented behaviour); the counts stay
-            suffix = ' '.join(m.group(2).split())
+            suffix = ' '.join(m.group(2).split())[:8]     # '| N +-..': the line may also be truncated at the maximum line length
             k = pos
             while k < len(out_lines) and suffix not in ' '.join(term.strip_escapes(out_lines[k].decode('utf-8', 'replace')).split()):
                 k += 1
@@ -276,6 +279,13 @@ def run_item(item):
         counters['passthrough_bytes'] += len(b)
         classes.add(cl)
     sets['line_classes'] = sorted(classes)
+    if kind != 'real' and shape and shape[0] == 'text-only':
+        # nothing but pass-through text went in: nothing may follow the last line either
+        tail = [l for l in out_lines[pos:] if l.strip()]
+        if tail:
+            return violated('c04:extra-output:tail', 'output continues after the last pass-through line of a text-only input', 'end of output',
+                            repr(tail[:3])[:300], run=res, counters=counters, sets=sets)
+        counters['tails_checked'] = 1
     return held(sig=(tuple(shape), tuple(sorted(classes)), tuple(sorted(cls))), nontrivial=counters['passthrough_lines'] >= 3,
                 counters=counters, sets=sets,
                 sample={'shape': shape, 'args': gen.to_args(opts)[2:10], 'input_head': [l.decode('utf-8', 'replace') for l in in_lines[:5]]})
